@@ -56,6 +56,7 @@ one() {
     case " $first " in *" $c "*) ;; *) rest="$rest $c" ;; esac
   done
   verdict="SURVIVED-ALL"; inc=""
+  if [ -n "${RELEVANT_ONLY:-}" ]; then rest=""; verdict="SURVIVED-RELEVANT($(echo $first | tr ' ' ','))"; fi
   for c in $first $rest; do
     VERIF_REPO="$D" VERIF_EVIDENCE_DIR="$EV" "$VROOT/bin/check" "$c" quick > "$EV/$c.log" 2>&1; rc=$?
     if [ $rc -eq 1 ]; then
